@@ -57,8 +57,9 @@ var slowN int64
 type Solver struct {
 	backs   []*backend
 	order   []int
-	timeout time.Duration
-	cache   map[string]string
+	timeout  time.Duration
+	deadline time.Time // hard stop for the job: later queries are answered "inconclusive" at once
+	cache    map[string]string
 }
 
 func newSolver(profiles string, timeout time.Duration) *Solver {
@@ -94,6 +95,10 @@ func (s *Solver) check(asserts []*Term, negLast bool, vals []*Term) (string, map
 		}
 	}
 	body := sb.String()
+	if !s.deadline.IsZero() && time.Now().After(s.deadline) {
+		atomic.AddInt64(&gstats.unknown, 1)
+		return "inconclusive(job deadline)", nil
+	}
 	if len(vals) == 0 {
 		if r, ok := s.cache[body]; ok {
 			atomic.AddInt64(&gstats.cacheHits, 1)
